@@ -389,6 +389,14 @@ package server
 // the same for EVERY return (numbered return sites silently stop matching when a return is removed)
 //@   assume-at return #1 : errInsecureProtocol != nil     -- package-level errors.New value, assigned once at package init, never reassigned
 //@   ensures result == nil ==> ghost_mw == 1
+// (C12, "repeating the interrupted operation then succeeds") the state of the LOCAL manifest of the name -
+// missing, truncated by a crash inside the final write, garbage - never ends the pull: every path that
+// read it goes on to ask the registry (the only earlier exit is the insecure-protocol refusal).
+//@   ghost-at entry : ghost_gm := 0
+//@   ghost-at entry : ghost_pm := 0
+//@   ghost-at after call GetManifest #1 : ghost_gm := 1
+//@   ghost-at call pullModelManifest #1 : ghost_pm := 1
+//@   ensures ghost_gm == 1 ==> ghost_pm == 1 || result == errInsecureProtocol
 
 // ==== C03 (B): blobDownload.run - the -partial file gets its final name only after every part
 // ==== goroutine returned nil and the file was closed ====
